@@ -111,9 +111,11 @@ def classify_parse(case, obs):
 
 # ------------------------------------------------------------------ CLI: the three template positions
 POSITIONS = ["name", "filter", "sort"]
-ALIASES = [["-a", "Selfie=%Selfie()"], ["-a", "A1=%B1()", "-a", "B1=x%A1()"], ["-a", "Bad=%Upper{"], ["-a", "Ok=%Upper(){%Name()}"], []]
+ALIASES = [["-a", "Selfie=%Selfie()"], ["-a", "A1=%B1()", "-a", "B1=x%A1()"], ["-a", "Bad=%Upper{"], ["-a", "Ok=%Upper(){%Name()}"], [],
+           # cycles with two references back into themselves (a report, not an endless expansion)
+           ["-a", "Twice=%Twice()_%Twice()"], ["-a", "Y2=%Z2()", "-a", "Z2=%Upper(){%Y2()%Y2()}"]]
 CLI_EXTRA_TEMPLATES = [
-    "%Selfie()", "%A1()", "%Bad()", "%Ok()", "%Ok(1)", "%Ok(){x}", "%NoSuchTag()", "%Nope.Name()", "%Title()", "%Core.Nope()",
+    "%Selfie()", "%A1()", "%Bad()", "%Ok()", "%Twice()", "%Y2()", "%Z2()x", "%Ok(1)", "%Ok(){x}", "%NoSuchTag()", "%Nope.Name()", "%Title()", "%Core.Nope()",
     "%Trim(0, left){x}", "%Trim(1){x}", "%Pad(0, left){x}", "%Count(-1)", "%Count(step=0)", "%Upper()", "%Name(){x}{y}",
     "%Count(" + "9" * 4301 + ")", "%Upper{" * 70 + "x" + "}" * 70, "%Round(1, up){1}", "%AsInt(3){1}", "%Collapse(''){x}",
     "%Replace('('){x}", "%Remove('['){x}", "%Name", "%", "%(", "%.Name()", "x|y", "|", "%Name()|", "%Name()|x",
